@@ -129,6 +129,21 @@ _p("C17", "CrossHair/z3 bounded exhaustive lock-step execution of a plain node c
    "forests with <= 5 nodes (children sequences <= 2), both families <= 4 with sequences <= 3",
    ["special methods other than the twelve listed", "JsonExporter/importers (no node comparison possible there)", "nodes beyond the bound"], COMMON_ASSUME + ["the harness itself touches nodes only via `is`"])
 
+_p("C19", "CrossHair/z3 bounded exhaustive symbolic execution of pickle (all protocols) and deepcopy over shapes, class mixes, entry nodes",
+   CH + ". Structure-only claim and said so: pickle/copy are C code and run concretely on each path; the solver's part is exhaustive coverage of shape x class x entry x protocol x symlink targets; "
+   "inside each path every single parent= mutation of the copy and of the original is checked for independence.",
+   "one path = (shape, class, entry node, protocol|deepcopy, symlink targets); non-trivial = >= 3 nodes",
+   "trees with <= 4 nodes; classes Node, AnyNode, user NodeMixin, user NodeMixin with __len__ (falsy when empty), user NodeMixin with value __eq__, LightNodeMixin with __slots__, Node+SymlinkNode mixes (targets: any earlier node, links to links, a node of another tree); protocols 0-5 (2-5 for slots) and deepcopy",
+   "trees with <= 5 nodes, same",
+   ["trees deeper than the recursion limit of pickle/deepcopy", "classes with custom __reduce__/__getstate__ of their own"], COMMON_ASSUME)
+
+_p("C20", "CrossHair/z3 symbolic execution of SymlinkNode attribute forwarding (symbolic values) and structural independence on mixed trees",
+   CH + ". Universe: ordinary nodes and links (to earlier nodes: same tree, other tree, link to link), forest shape solver-picked; written values are unconstrained symbolic ints (passed through, compared by identity first).",
+   "forward: one path = (universe, forest, attribute name, constructor-kwargs flag), every node as writer and every node as reader inside; independent: + one structural call; interleave: two steps (write | parent=)",
+   "3 nodes (kinds: node0 ordinary, node1 ordinary|link, node2 ordinary|link to 0|link to 1), all forests, attribute names foo/name/x1/_p/__tag__; one structural call; 2-step interleavings",
+   "4 nodes, 3-step interleavings",
+   ["attribute names that are class attributes of the link's class (separator, path, is_leaf ...: the link's own by Python's lookup rules)", "attribute deletion", "SymlinkNodeMixin subclasses other than SymlinkNode"], COMMON_ASSUME)
+
 MUT_OUT = ["more nodes than the bound", "hooks that themselves mutate the tree (re-entrancy)", "concurrent mutation",
            "iterables with side effects while being consumed by children="]
 
@@ -302,6 +317,16 @@ def obligations(prop, tier):
             out.append(dict(name="identity_mixin5", module="harness.identity", body="c17_body", cfg={"N": 5, "exactN": True, "L": 1}, depth=6, bounds="N=5 L<=1", picked=pk, symbolic="-"))
             out.append(dict(name="identity_mixin4", module="harness.identity", body="c17_body", cfg={"N": 4, "L": 3}, depth=6, bounds="N<=4 L<=3", picked=pk, symbolic="-"))
             out.append(dict(name="identity_light4", module="harness.identity", body="c17_body", cfg={"N": 4, "L": 3, "family": "light"}, depth=6, bounds="N<=4 L<=3", picked=pk, symbolic="-"))
+    elif prop == "C19":
+        N = 4 if q else 5
+        out.append(dict(name="copy_independent_isomorphic", module="harness.copying", body="c19_body", cfg={"N": N}, depth=5, bounds="N<=%d" % N,
+                        picked="n, parent vector, class, entry, protocol/deepcopy, symlink targets", symbolic="-"))
+    elif prop == "C20":
+        N = 3 if q else 4
+        pk = "link targets, parent vector (forest), attribute name, constructor-kwargs link"
+        out.append(dict(name="forward", module="harness.symlink", body="forward_body", cfg={"N": N}, depth=4, bounds="N=%d" % N, picked=pk, symbolic="written values (unbounded ints)"))
+        out.append(dict(name="independent", module="harness.symlink", body="independent_body", cfg={"N": N}, depth=5, bounds="N=%d, one structural call" % N, picked="link targets, forest, call", symbolic="-"))
+        out.append(dict(name="interleave", module="harness.symlink", body="interleave_body", cfg={"N": 3, "K": 2 if q else 3}, depth=5, bounds="N=3, %d steps" % (2 if q else 3), picked="link targets, forest, steps", symbolic="written values"))
     return out
 
 
